@@ -62,6 +62,13 @@ def main():
     from maestrowf.conductor import Conductor
     for j in jobs:
         root = os.path.join(base, j["id"])
+        if j.get("symlink"):
+            # the output directory as the user names it goes through a symbolic link
+            real, link = os.path.join(base, "real-dirs"), os.path.join(base, "linked")
+            os.makedirs(real, exist_ok=True)
+            if not os.path.islink(link):
+                os.symlink(real, link)
+            root = os.path.join(link, j["id"])
         try:
             if mode in ("stage", "store"):
                 _y, study = SS.load_study(j["spec"], root, hash_ws=j["hash_ws"], rlimit=j["rlimit"],
